@@ -47,6 +47,9 @@ def main():
                            cwd=wt).stdout.strip().splitlines()[-1][:60]
                 if os.path.isfile(os.path.join(sd, "demo.py")):
                     ex = sh("/venv/bin/python", os.path.join(sd, "demo.py"), env=dict(os.environ, PYTHONPATH=wt), timeout=1800).returncode
+                    if ex == 0 and os.path.isfile(os.path.join(sd, "demo2.py")):
+                        # a later fix took away the route the first demonstration used: the second one (see meta 'second_demo')
+                        ex = sh("/venv/bin/python", os.path.join(sd, "demo2.py"), env=dict(os.environ, PYTHONPATH=wt), timeout=1800).returncode
                 else:
                     ex = sh("/venv/bin/python", os.path.join(sd, "equiv.py"), pristine, wt, cwd=base, timeout=3600).returncode
                 m["reconfirmed"] = {"repo_head": head, "applies": True, "suite": suite, "suite_at_baseline": suite.startswith("190 passed"),
